@@ -172,7 +172,8 @@ func (vc *VC) strLit(s string) Term {
 		}
 	}
 	// distinctness from earlier literals
-	for o, oid := range vc.strLits {
+	for _, o := range sortedKeysOf(vc.strLits) {
+		oid := vc.strLits[o]
 		if oid != id && o != s {
 			vc.S.Assert(fmt.Sprintf("(not (= %s (str-lit %d)))", t, oid))
 		}
